@@ -87,3 +87,15 @@ func VerifSetSelectBias(b int32) { verifSelectBias = b }
 
 // VerifSetMapSeed fixes the start of every map iteration (-1 = stock behaviour).
 func VerifSetMapSeed(s int64) { verifMapSeed = s }
+
+var verifAfterWakeFn func()
+
+// VerifAfterWake is called by sync.WaitGroup.Wait right after its semaphore wake-up.
+func VerifAfterWake() {
+	if f := verifAfterWakeFn; f != nil {
+		f()
+	}
+}
+
+// VerifSetAfterWake installs the hook.
+func VerifSetAfterWake(f func()) { verifAfterWakeFn = f }
